@@ -133,3 +133,21 @@ def check(ctx):
         ctx.require(all(x is not None for x in tods) and tods == sorted(tods) and len(set(tods)) == len(tods), 'C12.S2', 'times of day strictly increase within a day', where,
                     tods, key='C12.S2|increasing')
         ctx.sample({'rule': 'C12.S2', 'pre': pre, 'post': post, 'events': got})
+
+
+def clock_range_rule(ctx, rule):
+    """the session's clock enumerates the business days of the unmodified (start_dt, end_dt) range (shared with C13/C14)"""
+    ps = summarise(ctx, CLS + '.__init__', policy=default_policy)
+    for p in normal(ps):
+        w = heap_writes(p, 'business_days')
+        if len(w) == 1:
+            ok, why = is_business_daily_range(w[0].value, V('starting_day'), V('ending_day'))
+            ctx.require(ok, rule, 'the clock covers every business day of the unmodified (start, end) range', w[0].site, why, key='%s|clock-range' % rule)
+        else:
+            ctx.undecided(rule, 'business_days is computed once', ctx.fn(CLS + '.__init__').site(), len(w))
+    ps = summarise(ctx, 'BacktestTradingSession._create_simulation_engine', policy=no_inline)
+    for p in ps:
+        v = p.value
+        ok = p.outcome == 'return' and v is not None and v[0] == 'call' and v[1] == ('fn', CLS) and v[2][:2] == (A('self', 'start_dt'), A('self', 'end_dt'))
+        ctx.require(ok, rule, "the session's clock runs over (start_dt, end_dt)", ctx.fn('BacktestTradingSession._create_simulation_engine').site(),
+                    fmt(v)[:120] if v else None, key='%s|session-clock' % rule)
